@@ -17,10 +17,27 @@ type cellPayload struct {
 func addOverflow(db *Database, pl cellPayload) ([]byte, error) {
 	to := pl.Payload
 	overflow := pl.Overflow
+	var seen map[int]struct{} // pages in this chain, to detect loops
 	for {
 		if overflow == 0 {
+			if int64(len(to)) < pl.Length {
+				// not enough bytes in the cell, or the chain is too short
+				return nil, ErrCorrupted
+			}
 			return to[:pl.Length], nil
 		}
+		if int64(len(to)) >= pl.Length {
+			// The chain goes on although the payload is complete. Either
+			// the length is wrong or the chain loops.
+			return nil, ErrCorrupted
+		}
+		if _, ok := seen[overflow]; ok {
+			return nil, ErrCorrupted
+		}
+		if seen == nil {
+			seen = map[int]struct{}{}
+		}
+		seen[overflow] = struct{}{}
 		buf, err := db.page(overflow)
 		if err != nil {
 			return nil, err
